@@ -24,7 +24,8 @@ PROP = dict(
         dict(module="AgentServer", cfg="MC_AgentServer_ready.cfg",
              allow_dead=()),
         dict(module="AgentServer", cfg="MC_AgentServer_live.cfg", tiers=("thorough",), coverage=False),
-        dict(module="ProxyServerMC", cfg="MC_ProxyServer.cfg"),
+        dict(module="ProxyServerMC", cfg="MC_ProxyServer.cfg", tiers=("quick",)),
+        dict(module="ProxyServerMC", cfg="MC_ProxyServer_thorough.cfg", tiers=("thorough",)),
         dict(module="ProxyServerMC", cfg="MC_ProxyServer_live.cfg", tiers=("thorough",), coverage=False)],
     trace=dict(module="AgentServerTrace", cfg="AgentServerTrace.cfg"),
     trace_alt={"proxy": dict(module="ProxyServerTrace", cfg="ProxyServerTrace.cfg")},
